@@ -270,9 +270,10 @@ fn judge_stream(t: &mut Tally, bytes: &[u8], src: F, docs: &[V], to: F, d: usize
 			m.sort_unstable();
 			m
 		});
+		let big = bytes.len() > 100_000;
 		for chunk in [0usize, 4096] {
-			let pol = policy(chunk, true, false, &marks);
-			let st = explore(d, 400, |env| {
+			let pol = policy(chunk, !big, false, &marks);
+			let st = explore(if big { 0 } else { d }, 400, |env| {
 				let o = crate::run::run_reader(SchedReader::new(bytes, env, pol.clone()), from, to);
 				let choices = env.borrow().choices();
 				check(t, &o, "reader", chunk, &choices);
@@ -422,6 +423,14 @@ pub fn run(ctx: &Ctx) -> CheckOutput {
 		for &n in &ns {
 			let docs: Vec<V> = (0..n).map(|i| match i % 4 { 0 => V::map(vec![("i", V::Int(i as i128))]), 1 => V::Arr(vec![V::Int(i as i128)]), 2 => V::Int(i as i128), _ => V::s("s") }).collect();
 			jobs.push((src, docs, format!("{}:N={n}", src.name())));
+		}
+		// a large document between two small ones (length headers of every width)
+		for big in [40_000usize, 70_000] {
+			if !thorough && big != 40_000 {
+				continue;
+			}
+			let docs = vec![V::map(vec![("a", V::Int(1))]), V::Map((0..big).map(|i| (V::Str(format!("k{i}")), V::Int((i % 3) as i128))).collect()), V::Arr(vec![V::Int(1), V::Int(2)])];
+			jobs.push((src, docs, format!("{}:big-map-{big}", src.name())));
 		}
 		let offs: Vec<usize> = if thorough { (8188..=8196).chain(16380..=16388).chain(24572..=24580).collect() } else { vec![8190, 8191, 8192, 8193, 16383, 16384, 16385, 24576] };
 		for off in offs {
